@@ -15,13 +15,13 @@ SPEC = {
     "level": "exploration",
     "rule": ("sources: constructor catalogue (~670 entries) x versions 2..10 x both modes; random recipes (general, call graphs, mutual "
              "recursion, optimiser family) under random option settings with scratch-slot optimisation off and on (the known optimiser "
-             "defect is attributed as in C03); label hazards; ABI encode programs in main and inside subroutines; routers; the repository's example programs (scratch-slot optimisation off).  An evaluation "
+             "defect is attributed as in C03); label hazards; ABI encode programs in main and inside subroutines; routers; the repository's example programs (scratch-slot optimisation off); every program the compiler returns to the repository's own tests (recorded by a sys.monitoring return hook while pytest runs them; scratch-slot optimisation off, height/ownership/frame findings only).  An evaluation "
              "is one emitted program driven over all its CFG edges by the forced-branch run (and, for recipes, 3 concrete executions "
              "under sanitizers); non-trivial = the program has at least one conditional branch or callsub; distinct = distinct texts."),
     "assumptions": ["vlib/langspec.py stack signatures ('certain' entries)", "vlib/cfg.py forced-branch exploration (calibrated on all golden TEAL)",
                     "vlib/avm.py sanitizers"],
     "min_evaluations": {"quick": 8000, "thorough": 60000},
-    "must_reach": ["abstract_ok", "forced_branches", "routines_analysed", "concrete_runs", "frame_routines", "src_catalogue", "src_recipe", "src_abi", "src_router", "src_corpus", "typed_join_rejected"],
+    "must_reach": ["abstract_ok", "forced_branches", "routines_analysed", "concrete_runs", "frame_routines", "src_catalogue", "src_recipe", "src_abi", "src_router", "src_corpus", "src_suite", "typed_join_rejected"],
     "shard_timeout": {"quick": 600, "thorough": 7200},
 }
 
@@ -32,7 +32,8 @@ ANY_NODES = {"gget", "gex", "lget"}
 def plan(tier, seed):
     n = 16 if tier == "quick" else 64
     return [{"seed": seed, "shard": i, "nshards": n, "tier": tier, "recipes": 300 if tier == "quick" else 1500,
-             "labels": 10 if tier == "quick" else 80, "routers": 4 if tier == "quick" else 20, "abi": 25 if tier == "quick" else 200} for i in range(n)]
+             "labels": 10 if tier == "quick" else 80, "routers": 4 if tier == "quick" else 20, "abi": 25 if tier == "quick" else 200} for i in range(n)] + [
+        {"seed": seed, "shard": n, "nshards": n, "tier": tier, "suite": True}]
 
 
 def judge_text(acc, tag, mode, version, text, case, seen, anytype=False):
@@ -90,6 +91,8 @@ def run_shard(shard):
             if it.teal:
                 judge_text(acc, "catalogue", c["mode"], c["version"], it.teal, c, seen)
         return acc.result()
+    if shard.get("suite"):
+        return suite_shard(acc, seen, shard["tier"])
     rng = rng_for(shard["seed"], "c05", shard["shard"])
     for it in feed.catalogue_items(pt, rng, shard["shard"], shard["nshards"]):
         if it.teal is None:
@@ -132,6 +135,24 @@ def run_shard(shard):
     for v in (6, 8, 10):
         history_probe(pt, acc, seen, v)
     typed_join_probes(pt, acc, seen, rng, 60 if shard["tier"] == "quick" else 400)
+    return acc.result()
+
+
+def suite_shard(acc, seen, tier):
+    """The repository's own tests as workload.  Their programs may be ill-typed at run time on purpose (they never run), so only the
+    height/ownership/frame findings are judged; compilations with the scratch-slot optimisation on are left to the recipe families,
+    where the known optimiser defect is attributed by counterfactual."""
+    from .. import suite
+    recs, st = suite.record(tier)
+    acc.counters["suite_raw_records"] += st["raw_records"]
+    for r in recs:
+        if r.get("mode") not in ("Application", "Signature") or not isinstance(r.get("version"), int):
+            continue
+        if suite.scratch_optimised(r):
+            acc.counters["suite_skipped_scratch_optimised"] += 1
+            continue
+        judge_text(acc, "suite", "app" if r["mode"] == "Application" else "sig", r["version"], r["teal"],
+                   {"source": "suite", "mode": r["mode"], "version": r["version"], "tests": r["tests"]}, seen, anytype=True)
     return acc.result()
 
 
